@@ -74,6 +74,35 @@ add("C16", "exploration",
     "against the concatenation (plus i=len), mazes / dataset_lengths / dataset_cum_lengths / cfg.n_mazes agreement before and after update_self_config.",
     "Members hold small fixed mazes; negative / numpy indices not covered.", "5/C16")
 
+add("C03", "model_checking",
+    "explicit-state exploration of generate(cfg) under the RNG choice oracle + exhaustive task->worker schedule enumeration over a virtual multiprocessing pool validated against real pools",
+    "Layer 1: the complete program-state graph of MazeDataset.generate(cfg) with one item (generator choices x endpoint choices) for generators x kwargs x a pairwise-covering "
+    "(thorough: full) set of the 200 endpoint-option sets, and every answer of generate_random_path for all 200 option sets on every distinct generated maze; each item is judged "
+    "against reference BFS (ends, walls, no repeat, shortest, option compliance; documented ValueError only when the reference says no admissible endpoints). Layer 2: counts for "
+    "n_mazes in {0,1,2,3,5} with <=1 deviation plus real-PRNG seeds. Layer 3: all K^n schedules (K<=3, n<=4; thorough K<=4, n<=5) of a virtual pool bound into the library x 3 prior "
+    "histories x 3 worker-random seedings; real multiprocessing pools in fresh interpreters must reproduce some enumerated schedule (numpy-only generators).",
+    "Pool model assumptions are listed in the evidence; grids 2-3 (4 thorough); OS scheduling itself is not controlled.", "5/C03")
+add("C11", "fault_enumeration",
+    "exhaustive enumeration of crash images from the recorded file-API write log of a real save, truncations, single-byte corruptions and foreign cache files",
+    "A real from_config save is recorded at the file API (every write with offset, incl. zip header rewrites; the log must reproduce the file byte for byte). For every prefix of the "
+    "log with the last write torn, every truncation offset (dense stride quick, every byte thorough), single-byte corruptions, appended garbage, missing and empty files, the real "
+    "from_config must return exactly a fresh generation's mazes and leave a loadable, equal file; for all ordered pairs of an 11-member one-field-different config family the "
+    "foreign file must raise or yield exactly the requested data (maze count exempt).",
+    "Crash = prefix of the application's writes (no reordering below the file API); media faults = single-byte corruptions only.", "5/C11")
+add("C13", "exploration",
+    "bounded-exhaustive enumeration of every connection structure up to 3x3 x every cell / ordered cell pair / candidate path / solution, and every RNG answer of as_adj_list up to 4 "
+    "connections, against a dict-of-sets adjacency",
+    "Every graph of all grids up to 3x3 (thorough: 2x4/4x2 fully, 3x4/4x3 for the cheap queries, structured mazes to 15x15) x every cell, ordered pair, candidate path (valid, broken, "
+    "out of bounds, empty) and solution for thirteen query functions incl. adjacency-list round trips under all shuffle answers (bounded family above 4 connections) and the "
+    "fork / path-following partition.",
+    "get_connected_component without metadata only on connected graphs; from_adj_list only where the highest row and column index occur; lattice_max_degrees(1) observed, not judged.", "5/C13")
+add("C20", "exploration",
+    "bounded-exhaustive enumeration of graphs x unit lengths x cell values for the image builder and of complete Agg plots / path overlays, pixels and artist coordinates read back",
+    "_lattice_maze_to_img on every graph up to 3x3 x unit_length {3,4,5,14} x with/without cell values; complete MazePlot(...).plot() on all of G(2,2) x kinds, all 192 3x3 trees x 4 "
+    "endpoint pairs, structured 5x5/8x8/4x7, and every simple lattice path <= 4 cells as true / predicted path; block/strip pixels, rendered wall colour, ax.images array, line and "
+    "quiver coordinates and the ASCII export are compared with the reference adjacency.",
+    "With cell values crossing pixels and the top/left frame are not judged; ticks, labels, colours out of scope.", "5/C20")
+
 PLANNED = {}
 
 
